@@ -22,7 +22,7 @@ type c08Event struct {
 	Batch   []c08Event `json:"batch,omitempty"`
 }
 
-var c08VariantNames = []string{"clean", "syntax", "unused", "undefined", "defglobal", "useglobal", "require", "requiremissing", "annoclass", "useannoclass", "dupkey", "empty", "undefinedB", "requiremissingB", "useglobalB", "dofile", "annoclassdup", "annoclassdup", "annomixed"}
+var c08VariantNames = []string{"clean", "syntax", "unused", "undefined", "defglobal", "useglobal", "require", "requiremissing", "annoclass", "useannoclass", "dupkey", "empty", "undefinedB", "requiremissingB", "useglobalB", "dofile", "annoclassdup", "annoclassdup", "annomixed", "usefilenameglobal"}
 
 // c08Variant renders content variant v for file index i of n files.
 func c08Variant(v string, i, n int, layout string) string {
@@ -52,6 +52,14 @@ func c08Variant(v string, i, n int, layout string) string {
 	case "annoclassdup":
 		// the same class name in every file that carries this variant: two such files at once make a duplicate type
 		return fmt.Sprintf("---@class ClsShared\n---@field fs%d number\nlocal ClsShared%d = {}\nreturn ClsShared%d\n", i, i, i)
+	case "usefilenameglobal":
+		// a global named like the next file (its base name): with the option IgnoreFileNameVarFlag of luahelper.json it is
+		// not reported as undefined as long as that file exists
+		base := strings.TrimSuffix(c08RelL(layout, nxt), ".lua")
+		if k := strings.LastIndex(base, "/"); k >= 0 {
+			base = base[k+1:]
+		}
+		return fmt.Sprintf("local a%d = %d\nprint(a%d, %s.count)\n", i, i, i, base)
 	case "annomixed":
 		// a type warning (unknown annotation type) followed, further down, by a malformed annotation line
 		return fmt.Sprintf("---@class Mix%d\n---@field owner NoSuchType%d\nlocal Mix%d = {}\n---@param amount\nfunction Mix%d.f(amount)\n  return amount\nend\nreturn Mix%d\n", i, i, i, i, i)
@@ -113,6 +121,7 @@ func c08Module(layout string, i int, qualified bool) string {
 type c08History struct {
 	N      int               `json:"files"`
 	Layout string            `json:"layout"`
+	JSON   string            `json:"luahelper_json,omitempty"` // content of a luahelper.json in the workspace ("" = none)
 	Init   map[string]string `json:"initial_variants"`
 	Events []c08Event        `json:"events"`
 }
@@ -122,6 +131,9 @@ func c08Gen(r *Rng, maxEvents int) c08History {
 	h := c08History{N: n, Init: map[string]string{}, Layout: "flat"}
 	if r.Chance(1, 3) {
 		h.Layout = "dup"
+	}
+	if r.Fork(0x6a736f6e).Chance(1, 4) {
+		h.JSON = `{"IgnoreFileNameVarFlag":1}`
 	}
 	c08Rel := func(i int) string { return c08RelL(h.Layout, i) }
 	exists := map[int]bool{}
@@ -312,6 +324,10 @@ func c08Run(c *Ctx, h c08History, tag string) {
 	files := map[string]string{}
 	for rel, v := range h.Init {
 		files[rel] = c08Variant(v, c08IdxL(h.Layout, rel), h.N, h.Layout)
+	}
+	if h.JSON != "" {
+		files["luahelper.json"] = h.JSON
+		c.Count("histories_with_luahelper_json", 1)
 	}
 	ws := c.NewWorkspace(files)
 	defer ws.Remove()
